@@ -277,7 +277,9 @@ def write (g : Cfg) (r : R) (data : Bytes) : R × WRes :=
 
 /-! ### ReadFrom -/
 
-inductive RKind | plain | file | limited
+/-- what ReadFrom is given: a plain reader, an `*os.File`, an `io.LimitedReader` over a file, an `io.LimitedReader`
+over a reader that is not a file -/
+inductive RKind | plain | file | limited | limitedMem
   deriving Repr, DecidableEq
 
 /-- io.Copy to the conn: 32 KiB reads, one conn write each; stops at the first failing write -/
@@ -310,8 +312,8 @@ def sendBodyFirst (g : Cfg) (r : R) : R × Bool :=
 
 /-- ReadFrom, the copy: Sendfile or io.Copy -/
 def readCopy (g : Cfg) (r : R) (k : RKind) (data : Bytes) : R × WRes :=
-  if k == .limited && data.length == 0 then (r, .ok 0) else
-  if g.sendfile && k != .plain then sendDirect g r data
+  if (k == .limited || k == .limitedMem) && data.length == 0 then (r, .ok 0) else
+  if g.sendfile && (k == .file || k == .limited) then sendDirect g r data
   else
     let (r, w, ok) := copyLoop g (data.length + 1) r data 0
     if ok then (r, .ok w) else (r, .errCopy w)
